@@ -8,7 +8,7 @@ use crate::core::rng::Rng;
 use crate::core::rt;
 use crate::gen;
 use crate::oracle::dist::{DistOracle, INF};
-use crate::oracle::close;
+use crate::oracle::{close, close_rel};
 use crate::runner::{Ctx, EnvResult};
 use graphrs::algorithms::centrality::{betweenness, closeness};
 use graphrs::algorithms::shortest_path::dijkstra;
@@ -102,7 +102,7 @@ pub fn check_traversal(step: usize, op: &Op, g: &G, m: &Model, case: &Case, cx: 
                 for v in 0..n {
                     let got = map.get(&snap.names[v]).map(|x| x.distance).unwrap_or(INF);
                     let exp = wo.d[u][v];
-                    if !close(got, exp) {
+                    if !close_rel(got, exp) {
                         cx.fail(
                             "C03.weighted_distance",
                             &format!("stale traversal weight: {}", situation(op, m)),
@@ -123,7 +123,7 @@ pub fn check_traversal(step: usize, op: &Op, g: &G, m: &Model, case: &Case, cx: 
                     let exp = wo.closeness(wf);
                     for v in 0..n {
                         let got = map.get(&snap.names[v]).copied().unwrap_or(f64::NAN);
-                        if !close(got, exp[v]) {
+                        if !close_rel(got, exp[v]) {
                             cx.fail("C03.weighted_closeness", &format!("closeness from stale weights: {}", situation(op, m)), format!("after step {}: weighted closeness({:?}, wf={}) = {} but the stored edges give {} [{}]", step, snap.names[v], wf, got, exp[v], specs.short()));
                             return;
                         }
@@ -263,8 +263,8 @@ impl Prop for C03Prop {
         let specs = Specs::from_index(idx as usize % 96);
         let mut case = Case::new("C03", seed, specs);
         // uniformly weighted or uniformly unweighted, never mixed (as the property restricts)
-        let regime = *rng.pick(&[gen::WeightRegime::AllNan, gen::WeightRegime::Dyadic, gen::WeightRegime::Dyadic, gen::WeightRegime::SmallInt, gen::WeightRegime::Nasty]);
-        let o = gen::HistOpts { specs, max_ops: 20, regime, derived: false, restart: rng.chance(1, 2), names_min: 3, names_max: 6, dup_bias: 45 };
+        let regime = *rng.pick(&[gen::WeightRegime::AllNan, gen::WeightRegime::Dyadic, gen::WeightRegime::Dyadic, gen::WeightRegime::SmallInt, gen::WeightRegime::Nasty, gen::WeightRegime::Tiny, gen::WeightRegime::NearEqual]);
+        let o = gen::HistOpts { specs, max_ops: 20, regime, derived: false, restart: rng.chance(1, 2), names_min: 3, names_max: 6, dup_bias: 45, big: rng.chance(1, 200) };
         let mut wr = Rng::new(seed, "workload");
         case.ops = gen::gen_history(&mut wr, &o);
         if regime != gen::WeightRegime::AllNan {
@@ -278,7 +278,7 @@ impl Prop for C03Prop {
             }
         }
         let k = gen::keyings(seed, 2);
-        case.envs = vec![Env { keying: k[(idx % 2) as usize], pool: 1, sched: 0 }];
+        case.envs = vec![Env { keying: k[(idx % 2) as usize], pool: gen::pool_size(seed, 0), sched: crate::core::rng::mix(seed, 77) }];
         case
     }
     fn run_env(&self, case: &Case, _env: &Env, cx: &mut Ctx) {
